@@ -101,7 +101,7 @@ CHECKS = {
         text="Ordering, nesting, margin range and turnout predicates on every unit/group row of real bootstrap runs "
              "(B from 2 to 100, lambda incl. cross-validated, districts, partial units), and the rank arithmetic "
              "evaluated on 2000 alphas x 202 values of B.",
-        note="Trusted: predicates in vlib/checks/c06.py. No contest is called or stopped in this workload.",
+        note="Trusted: predicates in vlib/checks/c06.py. At most one contest is called or stop-listed (district cases); rows of that contest are skipped, C07 judges them.",
         ref="DESIGN.md section 6 C06",
     ),
     "C07": dict(
